@@ -28,6 +28,9 @@ class G_C:
     def __repr__(self):
         return "G_C(%r)" % (self.v,)
 
+    def __canon__(self):
+        return ("G_C", self.v)
+
     def __eq__(self, other):
         return isinstance(other, G_C) and other.v == self.v
 
@@ -59,6 +62,8 @@ class H:
         if isinstance(n, str) and callable(v) and (n == "<lambda>" or n.startswith("lambda")):
             return "<a lambda>"
         if isinstance(v, (tuple, list)):
+            return type(v)(H.norm(x) for x in v)
+        if isinstance(v, (set, frozenset)):
             return type(v)(H.norm(x) for x in v)
         if isinstance(v, dict):
             return {k: H.norm(x) for k, x in v.items()}
@@ -181,18 +186,18 @@ class EG:
         return self.draw(st.sampled_from(list(seq)))
 
     def num_leaf(self):
-        k = self.draw(st.integers(0, 9))
-        if k <= 3:
+        k = self.draw(st.integers(0, 13))
+        if k <= 2:
             return ast.Constant(self.pick(INTS))
-        if k <= 5:
+        if k <= 4:
             return ast.Constant(self.pick(FLOATS))
-        if k == 6:
+        if k == 5:
             self.tags.add("neg-literal")
             return ast.UnaryOp(ast.USub(), ast.Constant(self.pick(INTS[1:] + FLOATS)))
-        if k == 7:
+        if k <= 9:
             self.tags.add("name")
-            return ast.Name(self.pick(["G_I", "G_J", "G_F", "INF"]), ast.Load())
-        if k == 8:
+            return ast.Name(self.pick(["G_I", "G_J", "G_F", "G_I", "G_J", "INF"]), ast.Load())
+        if k <= 11:
             self.tags.add("attribute")
             return self.pick([lambda: ast.Attribute(ast.Name("G_O", ast.Load()), "a", ast.Load()),
                               lambda: ast.Attribute(ast.Attribute(ast.Name("G_O", ast.Load()), "b", ast.Load()), "v", ast.Load()),
@@ -351,9 +356,10 @@ class EG:
             if self.draw(st.integers(0, 4)) == 0:
                 self.tags.add("call-starstar")
                 kws.append(ast.keyword(None, ast.Name("G_D", ast.Load())))
-            fn = self.pick(["G_FN", "G_FN", "G_C", "tuple1"])
-            if fn == "tuple1":
-                return ast.Call(ast.Name("repr", ast.Load()), [self.anyexpr(depth - 1)], [])
+            fn = self.pick(["G_FN", "G_FN", "G_C", "str1"])
+            if fn == "str1":
+                # no repr()/str() of arbitrary objects: their text contains addresses and function type names
+                return ast.Call(ast.Name("str", ast.Load()), [self.num(depth - 1)], [])
             return ast.Call(ast.Name(fn, ast.Load()), args if fn == "G_FN" else args[:1], kws if fn == "G_FN" else [])
         if k == 16:
             self.tags.add("subscript")
